@@ -549,6 +549,56 @@ theorem requested_count_f32_within_one (S p q : Nat) (hq : 0 < q) (hsp : S * p <
   · have := h.2 hd; omega
   · have := h.1 hd; omega
 
+theorem ratioCeil_nonneg (S p q : Nat) (hq : 0 < q) : 0 ≤ ratioCeil S p q := by
+  have h := (ratio_ceil_spec S p q (by exact_mod_cast hq)).1
+  by_contra hn
+  have h1 : ratioCeil (S : Int) p q * (q : Int) ≤ -1 * (q : Int) :=
+    Int.mul_le_mul_of_nonneg_right (by omega) (by omega)
+  have h2 : (0 : Int) ≤ (S : Int) * p := Int.mul_nonneg (by omega) (by omega)
+  omega
+
+theorem ratioFloor_nonneg (S p q : Nat) : 0 ≤ ratioFloor S p q := by
+  unfold ratioFloor
+  exact Int.ediv_nonneg (Int.mul_nonneg (by omega) (by omega)) (by omega)
+
+/-- **The target size follows the requested ratio — end to end, with the float32 product in place.**  The Gaussian
+split as the code computes it (`c = int(ceil(float32(S)·float32(ρ)))`, capped, `c + 1` cells placed): outside the kept
+ACS region the target has `⌈S·ρ⌉ + 1` or `⌈S·ρ⌉ + 2` cells when that many are free, and every free cell otherwise.
+No count is an input any more: `S` is the number of sampled cells outside the ACS, `ρ = p / q`. -/
+theorem gaussian_target_size_f32 {keep : Bool} {a0 a1 : Int} {nrow ncol : Nat} {mask acs : Grid} (p q : Nat)
+    {cs : List (Int × Int)} {i t : Grid} (hl : acs.length = mask.length) (hq : 0 < q)
+    (hsp : cnt (reducedMask keep mask acs) * p < 2 ^ 22)
+    (h : gaussianSplit keep a0 a1 nrow ncol mask acs (countCeilF32 (cnt (reducedMask keep mask acs)) p q) cs = some (i, t)) :
+    ∃ t0, (∀ k, cell t0 k = (cell t k && !(keep && cell acs k))) ∧ Sub t0 (freeMask keep a0 a1 nrow ncol mask acs) ∧
+      (ratioCeil (cnt (reducedMask keep mask acs)) p q + 2 ≤ cnt (freeMask keep a0 a1 nrow ncol mask acs) →
+        (cnt t0 : Int) = ratioCeil (cnt (reducedMask keep mask acs)) p q + 1 ∨
+        (cnt t0 : Int) = ratioCeil (cnt (reducedMask keep mask acs)) p q + 2) ∧
+      ((cnt (freeMask keep a0 a1 nrow ncol mask acs) : Int) < ratioCeil (cnt (reducedMask keep mask acs)) p q + 1 →
+        cnt t0 = cnt (freeMask keep a0 a1 nrow ncol mask acs)) ∧
+      cnt t0 ≤ cnt (freeMask keep a0 a1 nrow ncol mask acs) := by
+  obtain ⟨t0, h1, h2, h3⟩ := gaussian_target_count hl h
+  have hw := requested_count_f32_within_one (cnt (reducedMask keep mask acs)) p q hq hsp
+  have hn := ratioCeil_nonneg (cnt (reducedMask keep mask acs)) p q hq
+  refine ⟨t0, h1, h2, ?_, ?_, ?_⟩ <;> (rw [h3]; unfold capRequest; omega)
+
+/-- the same for the uniform split (`count = int(float32(F)·float32(ρ))`, `F` the number of free cells): the target has
+`⌊F·ρ⌋` or `⌊F·ρ⌋ - 1` cells outside the kept ACS region, all of them free -/
+theorem uniform_target_size_f32 {keep : Bool} {a0 a1 : Int} {nrow ncol : Nat} {mask acs : Grid} (p q : Nat)
+    {chosen : List Nat} {i t : Grid} (hl : acs.length = mask.length) (hq : 0 < q)
+    (hsp : cnt (freeMask keep a0 a1 nrow ncol mask acs) * p < 2 ^ 22)
+    (h : uniformSplit keep a0 a1 nrow ncol mask acs
+      (countFloorF32 (cnt (freeMask keep a0 a1 nrow ncol mask acs)) p q).toNat chosen = .ok (i, t)) :
+    ∃ t0, (∀ k, cell t0 k = (cell t k && !(keep && cell acs k))) ∧ Sub t0 (freeMask keep a0 a1 nrow ncol mask acs) ∧
+      (cnt t0 : Int) ≤ ratioFloor (cnt (freeMask keep a0 a1 nrow ncol mask acs)) p q ∧
+      ratioFloor (cnt (freeMask keep a0 a1 nrow ncol mask acs)) p q - 1 ≤ cnt t0 := by
+  obtain ⟨t0, h1, h2, h3⟩ := uniform_target_count hl h
+  have hw := requested_count_f32_within_one (cnt (freeMask keep a0 a1 nrow ncol mask acs)) p q hq hsp
+  have hn := ratioFloor_nonneg (cnt (freeMask keep a0 a1 nrow ncol mask acs)) p q
+  have hz : cnt (freeMask keep a0 a1 nrow ncol mask acs) = 0 →
+      ratioFloor (cnt (freeMask keep a0 a1 nrow ncol mask acs)) p q = 0 := by
+    intro h0; rw [h0]; simp [ratioFloor]
+  refine ⟨t0, h1, h2, ?_, ?_⟩ <;> (rw [h3]; split <;> omega)
+
 /-- binary32 rounding as executed has relative error at most 2^-24 -/
 theorem round_f32_error (num den : Nat) (hd : 0 < den) :
     |qval (roundF32 num den) - (num : ℚ) / den| * 2 ^ 24 ≤ (num : ℚ) / den :=
@@ -722,7 +772,7 @@ theorem engine_sites_sound (tail : List KeyOp) (sites : List EngineSite) (hs : s
 
 /-- what the condition means: an SSL engine uses the split input whenever it trains, a joint engine only on `is_ssl`
 samples, and outside training nobody does -/
-theorem engine_uses_split_spec (joint train isSsl : Bool) :
+theorem engine_uses_split_spec (isSsl : Bool) :
     (engineUsesSplit joint false isSsl = false) ∧ (engineUsesSplit false true isSsl = true) ∧
     (engineUsesSplit true true isSsl = isSsl) := by
   cases isSsl <;> simp [engineUsesSplit]
@@ -774,6 +824,12 @@ example : gaussianSplit true 0 0 2 3 [true, true, false, true, true, true] [fals
     some ([true, true, false, false, true, true], [false, true, false, true, true, false]) := by decide
 example : gaussianSplit false 2 2 2 3 [true, true, false, true, true, true] (zeros 6) 7 [(0, 0), (1, 0), (0, 2), (1, 2)] =
     some ([true, true, false, true, true, false], [false, false, false, false, false, true]) := by decide
+/-- the same run with the count the code computes: `int(ceil(float32(5) · float32(0.2))) = 1` -/
+example : gaussianSplit false 0 0 2 3 [true, true, false, true, true, true] (zeros 6) (countCeilF32 5 1 5)
+      [(0, 0), (5, 5), (0, 0), (1, 2), (1, 1)] =
+    some ([false, true, false, true, true, false], [true, false, false, false, false, true]) := by decide
+example : uniformSplit false 0 0 2 3 [true, true, false, true, true, true] (zeros 6) (countFloorF32 5 2 5).toNat [4, 0] =
+    .ok ([false, true, false, true, false, true], [true, false, false, false, true, false]) := by decide
 example : Covers 1 2 [true, true] [(0, 1), (0, 0)] := by
   intro k hk
   have : k < 2 := cell_true_lt _ _ hk
